@@ -199,6 +199,12 @@ def setup():
     from pony.orm.dbproviders.sqlite import SQLiteProvider
     core, local, db_session = _core, _core.local, _core.db_session
     core.time = lambda: 0.0                      # QueryStat reads the clock; CrossHair wants determinism
+    core.log_sql = lambda sql, arguments=None: None      # sql_debug=True sessions would print every statement
+    core.log_orm = lambda msg: None
+    import pony.orm.dbproviders.sqlite as _ps, pony.orm.dbapiprovider as _dp
+    for _m in (_ps, _dp):
+        if hasattr(_m, 'log_orm'): _m.log_orm = lambda msg: None
+        if hasattr(_m, 'log_sql'): _m.log_sql = lambda sql, arguments=None: None
     warnings.simplefilter('ignore', core.PonyRuntimeWarning)
     pony_flask = importlib.import_module('pony.flask')
     bottle_plugin = importlib.import_module('pony.orm.integration.bottle_plugin')
@@ -465,6 +471,10 @@ def _nested(outer_decorator, inner_kind, inner_retry, inner_flag, inner_code, ca
     if inner_flag == 1: ikw['allowed_exceptions'] = (Exception,)
     elif inner_flag == 2: ikw['serializable'] = True
     elif inner_flag == 3: ikw['ddl'] = True
+    elif inner_flag == 4: ikw['sql_debug'] = True          # (options that take other paths through the decorator's nested-call shortcut)
+    elif inner_flag == 5: ikw['sql_debug'] = False
+    elif inner_flag == 6: ikw['immediate'] = True
+    elif inner_flag == 7: ikw['strict'] = True
     if inner_retry: ikw['retry'] = inner_retry
     inner_sess = db_session(**ikw)
     outer_sess = db_session(allowed_exceptions=(A,), serializable=outer_serializable)
@@ -544,7 +554,7 @@ def nested_decorated_in_with(inner_retry: int, inner_flag: int, inner_code: int,
 
     pre: 0 <= inner_retry <= 1
     pre: inner_retry == 0 or inner_flag != 3
-    pre: 0 <= inner_flag <= 3
+    pre: 0 <= inner_flag <= 7
     pre: inner_code in (RET, C_EA, C_ER, C_EO)
     pre: outer_code in (RET, C_EA, C_EO)
     pre: inner_flag == 2 or not outer_serializable
@@ -559,7 +569,7 @@ def nested_decorated_in_decorated(inner_retry: int, inner_flag: int, inner_code:
 
     pre: 0 <= inner_retry <= 1
     pre: inner_retry == 0 or inner_flag != 3
-    pre: 0 <= inner_flag <= 3
+    pre: 0 <= inner_flag <= 7
     pre: inner_code in (RET, C_EA, C_ER, C_EO)
     pre: outer_code in (RET, C_EA, C_EO)
     pre: inner_flag == 2 or not outer_serializable
@@ -573,7 +583,7 @@ def nested_with(outer_decorator: bool, deep: bool, inner_flag: int, inner_code: 
     """Inner session = `with db_session(...)` inside the outer body, directly or (deep) inside a further plain
     `with db_session` (see _nested).
 
-    pre: 0 <= inner_flag <= 3
+    pre: 0 <= inner_flag <= 7
     pre: inner_code in (RET, C_EA, C_ER, C_EO)
     pre: outer_code in (RET, C_EA, C_EO)
     pre: inner_flag == 2 or not outer_serializable
@@ -583,6 +593,9 @@ def nested_with(outer_decorator: bool, deep: bool, inner_flag: int, inner_code: 
 
 
 # ------------------------------------------------------------------------------------------------ generators
+GEN_OPTIONS = {}          # extra db_session options of the generator harnesses (set by generator_options)
+
+
 def generator(n_yields: int, commit_mask: int, raise_at: int, raise_code: int, action: int, action_at: int,
               aform: bool, cleanup_writes: bool) -> bool:
     """@db_session generator with `n_yields` yields.  Segment s (the code between yield s-1 and yield s) writes row s;
@@ -603,9 +616,13 @@ def generator(n_yields: int, commit_mask: int, raise_at: int, raise_code: int, a
     pre: action >= 2 or action_at == 0
     post: _
     """
+    return _gen(n_yields, commit_mask, raise_at, raise_code, action, action_at, aform, cleanup_writes)
+
+
+def _gen(n_yields, commit_mask, raise_at, raise_code, action, action_at, aform, cleanup_writes):
     _begin()
     raised, seg_log, got = [], [], []
-    sess = db_session(allowed_exceptions=is_allowed if aform else (A,))
+    sess = db_session(allowed_exceptions=is_allowed if aform else (A,), **GEN_OPTIONS)
 
     def body(tag):
         for s in range(n_yields + 1):
@@ -704,6 +721,28 @@ def generator(n_yields: int, commit_mask: int, raise_at: int, raise_code: int, a
     return ok(good)
 
 
+def generator_options(opt: int, n_yields: int, commit_mask: int, raise_at: int, action: int, action_at: int) -> bool:
+    """The generator scenario (see `generator`) for sessions with other options: opt 0 immediate=True, 1 optimistic=False,
+    2 sql_debug=True, 3 strict=True.  A generator may only be suspended with nothing uncommitted whatever the options are
+    (while it is suspended the caller can open its own session on the same connection).
+
+    pre: 0 <= opt <= 3
+    pre: 0 <= n_yields <= 2
+    pre: 0 <= commit_mask < 4
+    pre: -1 <= raise_at <= 2
+    pre: action in (0, 3, 4)
+    pre: 0 <= action_at <= 1
+    pre: action >= 2 or action_at == 0
+    post: _
+    """
+    GEN_OPTIONS.clear()
+    GEN_OPTIONS.update({'immediate': True} if opt == 0 else {'optimistic': False} if opt == 1 else {'sql_debug': True} if opt == 2 else {'strict': True})
+    try:
+        return _gen(n_yields, commit_mask, raise_at, C_EO, action, action_at, False, False)
+    finally:
+        GEN_OPTIONS.clear()
+
+
 def generator_refusals(retry: int, ddl: bool, serializable: bool) -> bool:
     """db_session options that cannot apply to a generator function are refused at decoration time.
 
@@ -799,6 +838,6 @@ def bottle_route(code: int, arg: int) -> bool:
     return ok(good and runs == [(arg, 'k')] and clean_after() and plugin.api == 2 and plugin.name == 'pony')
 
 
-HARNESSES = ('retry_tuple_tuple', 'retry_callable_tuple', 'retry_tuple_callable', 'retry_callable_callable',
+HARNESSES = ('generator_options', 'retry_tuple_tuple', 'retry_callable_tuple', 'retry_tuple_callable', 'retry_callable_callable',
              'retry_default_exceptions', 'context_manager', 'context_manager_refusals', 'nested_decorated_in_with', 'nested_decorated_in_decorated', 'nested_with', 'generator',
              'generator_refusals', 'flask_request', 'bottle_route')
